@@ -20,6 +20,13 @@ def handle (op : String) (args : List String) : Option String :=
     else if bucket == "slow" then pure ("fails slow:" ++ fname)
     else if o > 4096 + 256 * i then pure ("fails size:" ++ fname)
     else pure "holds"
+  | "o.c14", [_src, _event, _metadata, _seed, "|", sameCompile, sameText, cleared, threads, _status] =>
+    -- determinism observed on the implementation
+    if sameCompile != "1" then some "fails determinism:compile_twice"
+    else if cleared == "0" then some "fails determinism:cleared_runtime"
+    else if threads == "0" then some "fails determinism:threads"
+    else if sameText != "1" then some "fails determinism:D_diag_hint_order"
+    else some "holds"
   | _, _ => none
 
 end Driver.Sweep
